@@ -94,6 +94,115 @@ def Member.method (first : Tok) (pairs : List (Tok × Tok)) (ops : List Tok) (x 
     exact ⟨w7, [ev], ⟨⟨[w7], .one hi7, rfl⟩, by rw [hb]; exact .refl _, ⟨_, hst7, ⟨rfl, rfl, rfl, rfl⟩, hacc⟩, hev7, hmu7⟩,
       ev, d, m', hm', rfl, hk7, hid7, hpar7⟩
 
+/-- a member that is ONE iteration delivering ONE callback, leaving the access level alone -/
+def Member.single {env : Env} {F : Nat} {c : Core} (At : Buf → Buf → Prop) (E : Block → List Block → String → Event → Prop)
+    (at_sigEq : ∀ {b b' k : Buf}, At b b' → SigEq b k → ∃ k', At k k' ∧ SigEq b' k')
+    (sound : ∀ (w : World) (b' : Buf) (blk : Block) (rest : List Block) (acc : String), w.stack = blk :: rest →
+      blk.hdr.kind = .cls → blk.access = some acc → w.muted = false → At w.buf b' → ∃ (w7 : World) (l : LocRef) (ev : Event),
+        interp env (mainBody F c none) w = (w7, .ok (.inl none)) ∧ SigEq b' w7.buf ∧ w7.stack = { blk with loc := l } :: rest ∧
+        w7.events = w.events ++ [ev] ∧ E blk rest acc ev ∧ w7.muted = false) : Member env F c where
+  At := At
+  Ev := fun blk rest acc evs => ∃ ev, evs = [ev] ∧ E blk rest acc ev
+  accOut := id
+  size := 1
+  at_sigEq := at_sigEq
+  sound := by
+    intro w b' blk rest acc hst hk hacc hmu hat
+    obtain ⟨w7, l, ev, hi, hb, hst7, hev, hE, hmu7⟩ := sound w b' blk rest acc hst hk hacc hmu hat
+    exact ⟨w7, [ev], ⟨⟨[w7], .one hi, rfl⟩, hb, ⟨_, hst7, ⟨rfl, rfl, rfl, rfl⟩, hacc⟩, hev, hmu7⟩, ev, rfl, hE⟩
+
+/-- `typedef T ptr-ops x;` in a class body -/
+def Member.typedef (kw : Tok) (v : VarDeclToks) : Member env F (core F (D + 1 + 1 + 1 + 1)) :=
+  Member.single (fun b b' => (kw.type = "typedef" ∧ v.x.value ≠ "" ∧ v.OK F) ∧ Yields env.cfg b (kw :: v.toks) b')
+    (fun blk rest _ ev => ItemEvent blk rest ev (.typedef (plainTypedef v.x v.d1 blk)))
+    (by
+      intro b b' k ⟨hok, hy⟩ hs
+      obtain ⟨k', hy', hs'⟩ := hy.sigEq hs
+      exact ⟨k', ⟨hok, hy'⟩, hs'⟩)
+    (by
+      intro w b' blk rest acc hst hk hacc hmu ⟨⟨hkw, hxne, hok⟩, hy⟩
+      obtain ⟨bk, h0, hy⟩ := hy.cons_inv
+      obtain ⟨b1, b0, bmid, bx, h1, h2, h3, h4, h5, h6, h7, h8, h9, h10, h11, h12, h13, h14⟩ := VarDeclToks.at_of_yields hok hy
+      obtain ⟨w7, ct, ev, hi7, hsig7, _, hst7, hev7, hk7, hid7, hpar7, _, _, hmu7, _⟩ :=
+        toplevel_typedef env hp F (D + 1 + 1) w kw v.first v.pairs v.ops v.x v.semi v.d1 bk b1 b0 bmid bx b' blk rest hst hxne hmu
+          (by rw [hnf]; simp) h0 hkw h1 h2 h3 h4 h5 h6 h7 h8 h9 h10 h11 h12 h13 h14 hok.2.2.2.2.2.2.2.2.2
+      exact ⟨w7, _, ev, hi7, hsig7, hst7, hev7, ⟨hk7, hid7, hpar7⟩, hmu7⟩)
+
+/-- `class a::b;` in a class body -/
+def Member.forwardDecl (kw first : Tok) (pairs : List (Tok × Tok)) (semi : Tok) : Member env F (core F (D + 1 + 1 + 1 + 1)) :=
+  Member.single (fun b b' => (isClassKey kw.value = true ∧ kw.type = kw.value ∧ first.type = "NAME" ∧ plainVal first.value = true ∧
+      (∀ p ∈ pairs, p.1.type = "DBL_COLON" ∧ p.2.type = "NAME" ∧ plainVal p.2.value = true) ∧ semi.type = ";" ∧ pairs.length + 2 ≤ F) ∧
+      Yields env.cfg b (kw :: first :: (pairs.flatMap (fun p => [p.1, p.2]) ++ [semi])) b')
+    (fun blk rest _ ev => ∃ d, ItemEvent blk rest ev (.forwardDecl (plainFwd kw.value first pairs blk d)))
+    (by
+      intro b b' k ⟨hok, hy⟩ hs
+      obtain ⟨k', hy', hs'⟩ := hy.sigEq hs
+      exact ⟨k', ⟨hok, hy'⟩, hs'⟩)
+    (by
+      intro w b' blk rest acc hst hk hacc hmu ⟨⟨h1, h2, h3, h4, h5, h6, h7⟩, hy⟩
+      obtain ⟨bk, t0, hy⟩ := hy.cons_inv
+      obtain ⟨b1, t1, hy⟩ := hy.cons_inv
+      obtain ⟨bmid, hy1, hy⟩ := hy.split
+      obtain ⟨d, bD, w7, ct, ev, _, hi7, hb, hst7, hev7, hk7, hid7, hpar7, _, _, hmu7, _⟩ :=
+        toplevel_forward_decl env hp F (D + 1 + 1) w kw first pairs semi bk b1 bmid b' blk rest hst hmu (by rw [hnf]; simp)
+          t0 h1 h2 t1 h3 h4 h5 hy1 hy.single_inv h6 h7
+      exact ⟨w7, _, ev, hi7, by rw [hb]; exact .refl _, hst7, hev7, ⟨d, hk7, hid7, hpar7⟩, hmu7⟩)
+
+/-- `using A = T ptr-ops;` in a class body -/
+def Member.usingAlias (kw a eq first : Tok) (pairs : List (Tok × Tok)) (ops : List Tok) (semi : Tok) (d1 : DType) :
+    Member env F (core F (D + 1 + 1 + 1 + 1)) :=
+  Member.single (fun b b' => (kw.type = "using" ∧ a.type = "NAME" ∧ eq.type = "=" ∧ first.type = "NAME" ∧ identVal first.value = true ∧
+      (∀ p ∈ pairs, p.1.type = "DBL_COLON" ∧ p.2.type = "NAME" ∧ plainVal p.2.value = true) ∧ opsHeadOk ops = true ∧
+      applyPtrOps (.type (.mk (.name first.value none :: pairs.map (fun p => .name p.2.value none)) none false) false false)
+        (ops.map (·.type)) = some d1 ∧ semi.type = ";" ∧ pairs.length + ops.length + 2 ≤ F) ∧
+      Yields env.cfg b (kw :: a :: eq :: first :: (pairs.flatMap (fun p => [p.1, p.2]) ++ (ops ++ [semi]))) b')
+    (fun blk rest _ ev => ∃ d, ItemEvent blk rest ev (.usingAlias (plainAlias a d1 blk d)))
+    (by
+      intro b b' k ⟨hok, hy⟩ hs
+      obtain ⟨k', hy', hs'⟩ := hy.sigEq hs
+      exact ⟨k', ⟨hok, hy'⟩, hs'⟩)
+    (by
+      intro w b' blk rest acc hst hk hacc hmu ⟨⟨h1, h2, h3, h4, h5, h6, h7, h8, h9, h10⟩, hy⟩
+      obtain ⟨bk, t0, hy⟩ := hy.cons_inv
+      obtain ⟨ba, t1, hy⟩ := hy.cons_inv
+      obtain ⟨bq, t2, hy⟩ := hy.cons_inv
+      obtain ⟨b1, t3, hy⟩ := hy.cons_inv
+      obtain ⟨b0, hy0, hy⟩ := hy.split
+      obtain ⟨bmid, hy1, hy⟩ := hy.split
+      obtain ⟨d, bD, w7, ct, ev, _, hi7, hb, _, hst7, hev7, hk7, hid7, hpar7, _, _, hmu7, _⟩ :=
+        toplevel_using_alias env hp F (D + 1 + 1) w kw a eq first pairs ops semi d1 bk ba bq b1 b0 bmid b' blk rest hst hmu
+          (by rw [hnf]; simp) t0 h1 t1 h2 t2 h3 t3 h4 h5 h6 hy0 h7 hy1 h8 hy.single_inv h9 h10
+      exact ⟨w7, _, ev, hi7, by rw [hb]; exact .refl _, hst7, hev7, ⟨d, hk7, hid7, hpar7⟩, hmu7⟩)
+
+/-- `enum [class|struct] N { … };` in a class body -/
+def Member.enum (kw : Tok) (cs : Option Tok) (first : Tok) (pairs : List (Tok × Tok)) (ob : Tok) (pre : List EItem) (last : EItem)
+    (semi : Tok) : Member env F (core F (D + 1 + 1 + 1 + 1)) :=
+  Member.single (fun b b' => (kw.value = "enum" ∧ kw.type = "enum" ∧ (∀ c, cs = some c → (c.type = "class" ∨ c.type = "struct") ∧ c.value = c.type) ∧
+      first.type = "NAME" ∧ plainVal first.value = true ∧
+      (∀ p ∈ pairs, p.1.type = "DBL_COLON" ∧ p.2.type = "NAME" ∧ plainVal p.2.value = true) ∧ ob.type = "{" ∧
+      (∀ i ∈ pre, i.OK ∧ i.sep.type = "," ∧ i.toks.length + 2 ≤ F) ∧ (last.OK ∧ last.sep.type = "}" ∧ last.toks.length + 2 ≤ F) ∧
+      semi.type = ";" ∧ pairs.length + 2 ≤ F ∧ pre.length + 1 ≤ F) ∧
+      Yields env.cfg b (kw :: (cs.toList ++ (first :: (pairs.flatMap (fun p => [p.1, p.2]) ++
+        (ob :: ((pre ++ [last]).flatMap EItem.toks ++ [semi])))))) b')
+    (fun blk rest _ ev => ∃ d vs, vs.map Enumerator.nv = (pre ++ [last]).map EItem.nv ∧
+      ItemEvent blk rest ev (.enum (plainEnum cs first pairs vs blk d)))
+    (by
+      intro b b' k ⟨hok, hy⟩ hs
+      obtain ⟨k', hy', hs'⟩ := hy.sigEq hs
+      exact ⟨k', ⟨hok, hy'⟩, hs'⟩)
+    (by
+      intro w b' blk rest acc hst hk hacc hmu ⟨⟨h1, h2, h3, h4, h5, h6, h7, h8, h9, h10, h11, h12⟩, hy⟩
+      obtain ⟨bk, t0, hy⟩ := hy.cons_inv
+      obtain ⟨b0, hcs, hy⟩ := hy.split
+      obtain ⟨b1, t1, hy⟩ := hy.cons_inv
+      obtain ⟨bmid, hy1, hy⟩ := hy.split
+      obtain ⟨bl, t2, hy⟩ := hy.cons_inv
+      have hcs' := enum_cs_hyp env.cfg cs bk b0 hcs (fun c hc => (h3 c hc).1)
+      obtain ⟨d, bD, w7, ct, vs, ev, _, hi7, hvs, hsig, hst7, hev7, hk7, hid7, hpar7, _, _, hmu7, _⟩ :=
+        toplevel_enum env hp F (D + 1 + 1) w kw cs first pairs ob pre last semi bk b0 b1 bmid bl b' blk rest hst
+          (fun _ => ⟨acc, hacc⟩) hmu (by rw [hnf]; simp) t0 h1 h2 hcs' (fun c hc => (h3 c hc).2) t1 h4 h5 h6 hy1 t2 h7 h8 h9 hy h10 h11 h12
+      exact ⟨w7, _, ev, hi7, hsig, hst7, hev7, ⟨d, vs, hvs, hk7, hid7, hpar7⟩, hmu7⟩)
+
 /-! ### `key N { members };` -/
 
 variable (hskip : ∀ i h, env.skip i h = false)
@@ -163,6 +272,75 @@ def Item.cls (kw first : Tok) (pairs : List (Tok × Tok)) (ms : List (Member env
       · show w'.stack.head?.map (·.id) = _; rw [hst', hst]; rfl
       · show hdr.kind = .cls ∧ hdr.access = _ ∧ hdr.cls.typename = _
         rw [← hhdr, ← hctv]; exact ⟨rfl, rfl, rfl⟩
+
+/-- **a class nested in a class body is a member**: its own members are read under ITS key's default
+    access level, whatever level is in force outside, and the outer level is in force again after it -/
+def Member.cls (kw first : Tok) (pairs : List (Tok × Tok)) (ms : List (Member env F (core F (D + 1 + 1 + 1 + 1)))) :
+    Member env F (core F (D + 1 + 1 + 1 + 1)) where
+  At := fun b b' => ∃ (ob cl semi : Tok) (b1 b2 : Buf),
+    isClassKey kw.value = true ∧ kw.type = kw.value ∧ first.type = "NAME" ∧ plainVal first.value = true ∧
+    (∀ p ∈ pairs, p.1.type = "DBL_COLON" ∧ p.2.type = "NAME" ∧ plainVal p.2.value = true) ∧ ob.type = "{" ∧
+    cl.type = "}" ∧ semi.type = ";" ∧ pairs.length + 2 ≤ F ∧
+    Yields env.cfg b (kw :: first :: (pairs.flatMap (fun p => [p.1, p.2]) ++ [ob])) b1 ∧ MSeqAt ms b1 b2 ∧
+    Yields env.cfg b2 [cl, semi] b'
+  Ev := fun blk rest acc evs => BlockEvents blk
+    (fun h => h.kind = .cls ∧ h.access = some (defaultAccess kw.value) ∧ h.cls.access = some acc ∧
+      h.cls.typename = .mk (.name first.value none :: pairs.map (fun p => .name p.2.value none)) (some kw.value) false)
+    (fun nb mid => MSeqEv nb (blk :: rest) ms (defaultAccess kw.value) mid) evs
+  accOut := id
+  size := mseqSize ms + 2
+  at_sigEq := by
+    intro b b' k ⟨ob, cl, semi, b1, b2, h1, h2, h3, h4, h5, h6, h7, h8, h9, hy, hm, hy2⟩ hs
+    obtain ⟨k1, hy', hs1⟩ := hy.sigEq hs
+    obtain ⟨k2, hm', hs2⟩ := hm.sigEq hs1
+    obtain ⟨k', hy2', hs'⟩ := hy2.sigEq hs2
+    exact ⟨k', ⟨ob, cl, semi, k1, k2, h1, h2, h3, h4, h5, h6, h7, h8, h9, hy', hm', hy2'⟩, hs'⟩
+  sound := by
+    intro w b' blk rest acc hst hk hacc hmu ⟨ob, cl, semi, b1, b2, h1, h2, h3, h4, h5, h6, h7, h8, h9, hy, hm, hy2⟩
+    have hfa : ∀ n, ¬ env.faultAt = some n := by intro n; rw [hnf]; simp
+    obtain ⟨bk, t0, hy⟩ := hy.cons_inv
+    obtain ⟨bf, t1, hy⟩ := hy.cons_inv
+    obtain ⟨bmid, hyp, hy⟩ := hy.split
+    obtain ⟨d, bD, w', ct, _, hbuf', hctv, hst', hev', _, _, hmu', _, hi⟩ :=
+      toplevel_class_head env hp F (D + 1 + 1) w kw first pairs ob bk bf bmid b1 blk rest hst hmu (hfa _) t0 h1 h2 t1 h3 h4 h5 hyp
+        hy.single_inv h6 h9
+    generalize hhdr : classHdr ct first pairs blk d = hdr at hi
+    have hPst : (pushedWorld env hdr w').stack = pushedBlock hdr w' :: blk :: rest := by
+      show pushedBlock hdr w' :: w'.stack = _; rw [hst', hst]
+    have hPmu : (pushedWorld env hdr w').muted = false := hskip _ _
+    obtain ⟨w7, mid, ⟨⟨ws, hch, hl⟩, hb7, ⟨nb7, hst7, hsb7, _⟩, hev7, hmu7⟩, hE⟩ :=
+      mseq_sound ms (pushedWorld env hdr w') b2 (pushedBlock hdr w') (blk :: rest) (defaultAccess kw.value) hPst
+        (by show hdr.kind = .cls; rw [← hhdr]; rfl) (by show hdr.access = _; rw [← hhdr, ← hctv]; rfl) hPmu
+        (by show MSeqAt ms w'.buf b2; rw [hbuf']; exact hm)
+    obtain ⟨k', hy2', hs'⟩ := hy2.sigEq hb7
+    obtain ⟨kc, tc, hy2'⟩ := hy2'.cons_inv
+    obtain ⟨n, hn⟩ := segs_getLast pairs first.value
+    obtain ⟨wA, cc, hsA, _, hend⟩ := toplevel_class_end env hp F (core F (D + 1 + 1 + 1 + 1)) w7 cl semi kc k' nb7 blk rest n none hst7
+      (by rw [← hsb7.2.2.2]; rfl) (by rw [← hsb7.2.1]; show hdr.kind = .cls; rw [← hhdr]; rfl)
+      (by rw [← hsb7.2.1]; show hdr.typedef = false; rw [← hhdr]; rfl)
+      (by rw [← hsb7.2.1]; show hdr.cls.typename.segments.getLast? = _; rw [← hhdr]; exact hn)
+      (fun _ => ⟨acc, hacc⟩) tc h7 hy2'.single_inv h8
+    obtain ⟨w3, hi3, hb3, hs3⟩ := hend _ (deliver_passing env { wA with mainTok := some cc }
+      (mkEvent { wA with mainTok := some cc } .blockEnd nb7 (some blk.id))
+      (by show wA.muted = false; rw [hsA.muted]; exact hmu7) (hfa _))
+    refine ⟨w3, pushEvent hdr w' :: (mid ++ [mkEvent { wA with mainTok := some cc } .blockEnd nb7 (some blk.id)]),
+      ⟨⟨pushedWorld env hdr w' :: (ws ++ [w3]), .cons hi (hch.append (.one hi3)), by simp [hl]⟩, ?_, ⟨blk, hs3.stack, .refl _, hacc⟩, ?_, ?_⟩, ?_⟩
+    · rw [hb3]; exact hs'
+    · rw [hs3.events]
+      show wA.events ++ _ = _
+      rw [hsA.events, hev7]
+      show (w'.events ++ [pushEvent hdr w']) ++ mid ++ _ = _
+      rw [hev']; simp
+    · rw [hs3.muted]
+      show nb7.priorMuted = false
+      rw [← hsb7.2.2.1]; show w'.muted = false; rw [hmu']; exact hmu
+    · refine ⟨pushedBlock hdr w', _, _, mid, rfl, rfl, rfl, ?_, rfl, ?_, hE, rfl, hsb7.1.symm, rfl⟩
+      · show w'.stack.head?.map (·.id) = _; rw [hst', hst]; rfl
+      · show hdr.kind = .cls ∧ hdr.access = _ ∧ hdr.cls.access = _ ∧ hdr.cls.typename = _
+        rw [← hhdr, ← hctv]
+        refine ⟨rfl, rfl, ?_, rfl⟩
+        show (if blk.hdr.kind = .cls then blk.access else none) = some acc
+        rw [if_pos hk, hacc]
 
 end kinds
 
